@@ -1,5 +1,6 @@
 (** C03: the token stream is the post-order record of the successful derivation only. *)
-From PegV Require Import Base.Tac Spec.Syntax Spec.Peg Model.Machine Model.Gen Proofs.Forest Proofs.Top Properties.Example.
+From PegV Require Import Base.Tac Spec.Syntax Spec.Peg Model.Machine Model.Gen Model.Analyses Model.Emit Model.SEmit Model.Exec
+  Proofs.Forest Proofs.Top Proofs.SEmitFile Properties.Example.
 
 (** After a successful parse the live tokens (Tokens() after Trim) are exactly the post-order
     flattening of the derivation forest the PEG semantics returns - which by construction contains
@@ -11,11 +12,24 @@ Theorem C03_tokens_postorder :
   forall memo inline n r st0 p f evs,
     slot_ok g inline r -> peg_parse g ptx buf penv n r = Some (Succ p f, evs) ->
     exists st' kids, machine g ptx buf penv memo inline n r st0 = Some (Ret true st') /\
-      live st' = flat f /\ f = [Node r 0 p kids] /\
-      live st' = flat kids ++ [(r, (0, p))] /\
+      live st' = Syntax.flat f /\ f = [Node r 0 p kids] /\
+      live st' = Syntax.flat kids ++ [(r, (0, p))] /\
       Forall (inb 0 (length buf)) (live st').
 Proof. exact c03_tokens. Qed.
 Print Assumptions C03_tokens_postorder.
+
+(** ... and so for the tokens the statements of the generated file record (Model/SEmit.v under the goto semantics of
+    Model/Exec.v, see C01): whatever execution of the entry's function, the tokens are that post-order *)
+Theorem C03_generated_code_tokens :
+  forall g ptx buf penv, good_grammar g -> good_buf buf -> good_switches g ->
+  forall memo inline n r st0 p f evs,
+    deep_table_b g inline = true -> slot_ok g inline r -> reached (count_rules g) r = true ->
+    peg_parse g ptx buf penv (S n) r = Some (Succ p f, evs) ->
+    forall res, xcall buf penv (mk_opts true memo inline g) (gen_fn g ptx inline) r (reset st0) res ->
+      exists st' kids, res = Ret true st' /\ live st' = Syntax.flat f /\ f = [Node r 0 p kids] /\
+        live st' = Syntax.flat kids ++ [(r, (0, p))] /\ Forall (inb 0 (length buf)) (live st').
+Proof. exact generated_code_tokens. Qed.
+Print Assumptions C03_generated_code_tokens.
 
 (** non-vacuity: on "aby" the first alternative R1 'x' is tried and abandoned (its R1, capture and
     action tokens are overwritten); 5 tokens remain *)
